@@ -366,7 +366,7 @@ check("C20",
            "stream write, operation boundaries, thread start/end, rendezvous): for EVERY assignment of 5 construction programs "
            "(declare+print with locations, type towers, interning incl. reserved words, literals/labels/symbols/linkages, class+enum+"
            "print) to 2 threads, in two shapes (isolated: Lexicons alive until all are done; lifecycle: each thread creates, uses and "
-           "destroys two Lexicons in a row), EVERY schedule with <= 2 (quick) / <= 3 (thorough) preemptions; to 3 threads: 35 "
+           "destroys two Lexicons in a row), EVERY schedule with <= 2 preemptions (thorough: <= 3 for the isolated shape); to 3 threads: 35 "
            "assignments up to permutation with <= 1 preemption (quick) / all 125 with <= 2 (thorough). Oracle per schedule: each "
            "thread's trace byte-identical to the same program run alone; nodes handed out by two live Lexicons intersect only in the "
            "process-wide constants; per-thread allocation balance (a block allocated by one thread and released by another is a "
